@@ -107,6 +107,16 @@ def checkFix (case impl : List String) : List Fail := Id.run do
           if sum8 img ≠ 0 then fails := fails ++ [⟨"prop", "C01", "sum-nonzero", s!"{tname} obs#{i}: image sums to {(sum8 img).toNat}"⟩]
           if readAt img 4 4 ≠ some img.length then
             fails := fails ++ [⟨"prop", "C02", "length-field", s!"{tname} obs#{i}: Length {(readAt img 4 4).getD 0}, image {img.length} bytes"⟩]
+        -- C03: fields that summarise a body: SLIT locality count vs matrix size; SPCR namespace string
+        if t = .slit then
+          let k := (readAt img 36 8).getD 0
+          if img.length ≠ 44 + k * k ∨ some k ≠ some (c.num 0) then
+            fails := fails ++ [⟨"prop", "C03", "slit-locality-count", s!"slit obs#{i}: count field {k}, image {img.length} bytes, {c.num 0} localities requested"⟩]
+        if t = .spcr then
+          let off := (readAt img 86 2).getD 0
+          let len := (readAt img 84 2).getD 0
+          if off + len ≠ img.length ∨ off ≠ 88 ∨ (img.drop off).getLast? ≠ some 0 then
+            fails := fails ++ [⟨"prop", "C03", "spcr-namespace-string", s!"offset {off} length {len} image {img.length}"⟩]
         let rev := (img.getD 8 0).toNat
         let cks := if t = .rsdp then (img.getD 8 0).toNat else (img.getD 9 0).toNat
         let ecks := (img.getD 32 0).toNat
